@@ -25,12 +25,16 @@ case "$FLAVOUR" in
 esac
 if [ ! -f "$REPO/config.h" ]; then echo "no config.h in $REPO (run configure)" >&2; exit 2; fi
 cp "$REPO/config.h" "$OUT/inc/config.h"
+# configure.ac: without the traditional DES hash the obsolete APIs (and with them the compat ABI) are off
+COMPAT=yes; OBS=1
+case "$HASHES" in *,descrypt,*) ;; *) COMPAT=no; OBS=0
+  sed -i 's/^#define ENABLE_OBSOLETE_API 1/#define ENABLE_OBSOLETE_API 0/' "$OUT/inc/config.h";; esac
 export LC_ALL=C
 $PERL $S/gen-crypt-hashes-h "$REPO/lib/hashes.conf" "$HASHES" > "$OUT/inc/crypt-hashes.h"
-$PERL $S/gen-crypt-symbol-vers-h yes SYMVER_MIN=GLIBC_2.0 SYMVER_FLOOR=GLIBC_2.2.5 COMPAT_ABI=yes \
+$PERL $S/gen-crypt-symbol-vers-h yes SYMVER_MIN=GLIBC_2.0 SYMVER_FLOOR=GLIBC_2.2.5 COMPAT_ABI=$COMPAT \
       "$REPO/lib/libcrypt.map.in" > "$OUT/inc/crypt-symbol-vers.h"
 $PERL $S/gen-crypt-h "$REPO/lib/crypt.h.in" "$OUT/inc/config.h" "$REPO/lib/hashes.conf" "$HASHES" > "$OUT/inc/crypt.h"
-$PERL $S/gen-libcrypt-map SYMVER_MIN=GLIBC_2.0 SYMVER_FLOOR=GLIBC_2.2.5 COMPAT_ABI=yes \
+$PERL $S/gen-libcrypt-map SYMVER_MIN=GLIBC_2.0 SYMVER_FLOOR=GLIBC_2.2.5 COMPAT_ABI=$COMPAT \
       "$REPO/lib/libcrypt.map.in" > "$OUT/inc/libcrypt.map"
 # private version script: same nodes, but nothing is made local
 awk '/^[[:space:]]*local:[[:space:]]*$/{skip=1;next} skip&&/^[[:space:]]*\*;[[:space:]]*$/{skip=0; print "    _crypt_*;"; next} {skip=0; print}' "$OUT/inc/libcrypt.map" > "$OUT/inc/libxcv.map"
@@ -39,6 +43,7 @@ pids=()
 for f in "$REPO"/lib/*.c; do
   b=$(basename "$f" .c)
   case "$b" in gen-des-tables|alg-yescrypt-platform) continue;; esac
+  [ "$OBS" = 0 ] && [ "$b" = crypt-des-obsolete ] && continue
   fl="$CFLAGS"
   if [ "$EXTRA" = norand ] && [ "$b" = util-get-random-bytes ]; then
     fl="$CFLAGS -include $OUT/inc/norand.h"
